@@ -14,8 +14,5 @@ def run(ctx, rep):
     cg.rule_utf8_gate(rep, crates['logos_codegen'])
     rt.rule_rounding(rep, crates['logos'], 'ws-default')
     rep.trusted += ['rustc nightly MIR', 'engines/mirfacts', 'regex-automata: thompson::Config::utf8 semantics; regex-syntax Properties::is_utf8']
-    try:
-        from props import gen
-        gen.rules_c12(ctx, rep)
-    except ImportError:
-        pass
+    from props import gen
+    gen.rules_c12(ctx, rep)
